@@ -352,6 +352,45 @@ Section RectBound.
       + apply (IH _ (proj2 C)).
     - intros E. eapply rsub_trans; [apply Ed; exact E|exact S].
   Qed.
+  (** ExpandForSubregions: on a non-empty bound it returns either the full rectangle or the
+      polar closure of the bound expanded by exactly 9 dblEpsilon in latitude (twice the 4.5
+      dblEpsilon one-sided error budget of AddPoint+RectBound, as documented) and by 0 or pi
+      in longitude.  The constant is consumed from the generated code: changing it breaks
+      this proof. *)
+  Definition c_9eps : PrimFloat.float := (0x1.2p-49)%float.   (* 9 * 2^-52 *)
+
+  Lemma expand_for_subregions_shape b : s2_Rect_IsEmpty b = false ->
+    s2_ExpandForSubregions b = s2_FullRect \/
+    exists lngExp, (lngExp = 0%float \/ lngExp = c_pi) /\
+      s2_ExpandForSubregions b = s2_Rect_PolarClosure (s2_Rect_expanded b (mk_s2_LatLng c_9eps lngExp)).
+  Proof.
+    intros E. unfold s2_ExpandForSubregions. rewrite E.
+    repeat match goal with
+    | |- context [if ?c then _ else _] => destruct c
+    end; cbv zeta; try (left; reflexivity);
+    right; (exists 0%float; split; [left; reflexivity|reflexivity]) ||
+           (exists c_pi; split; [right; reflexivity|reflexivity]).
+  Qed.
+
+  (** hence the subregion bound contains the bound it was computed from *)
+  Theorem expand_for_subregions_sup b : wf_rect b -> rsub b (s2_ExpandForSubregions b).
+  Proof.
+    intros W. destruct (s2_Rect_IsEmpty b) eqn:E.
+    - unfold s2_ExpandForSubregions. rewrite E. apply rsub_refl.
+    - destruct (expand_for_subregions_shape b E) as [->|[m [Hm ->]]]; [apply rsub_full|].
+      assert (M : margin_ok (mk_s2_LatLng c_9eps m)).
+      { unfold margin_ok. cbn [s2_LatLng_Lat s2_LatLng_Lng].
+        assert (A : PrimFloat.ltb 0%float c_9eps = true) by reflexivity.
+        apply ltb_true_iff in A; try reflexivity. rewrite rank_zero in A.
+        assert (B : PrimFloat.ltb c_9eps infinity = true) by reflexivity.
+        apply ltb_true_iff in B; try reflexivity. rewrite rank_infinity in B.
+        pose proof top_pos. pose proof rpi_pos. pose proof rpi_lt_top.
+        destruct Hm as [->| ->].
+        - rewrite rank_zero. repeat split; try reflexivity; lra.
+        - change c_pi with PI. fold rpi. repeat split; try reflexivity; lra. }
+      destruct (expanded_sup _ _ W M) as [W' G].
+      eapply rsub_trans; [exact G|apply polar_closure_sup; exact W'].
+  Qed.
 End RectBound.
 
 (** ** Folds of Union (CellUnion.RectBound over the cells, Polygon bound over its shells):
